@@ -255,7 +255,9 @@ pub open spec fn gather_named(fs: Seq<String>, named: Seq<&str>, k: int, builtin
         let prev = gather_named(fs, named, k - 1, builtin, opt, gc);
         match gc {
             Some(g) => gfr_spec(prev, named[k - 1]@, builtin, opt, g),
-            None => seq![str_key(named[k - 1]@)] + prev,
+            // C13 "features enabled by features": without any gitconfig a feature has no custom section, but a built-in one
+            // still brings the features it is defined to enable - exactly as when it is given as a flag
+            None => if builtin.contains_key(str_key(named[k - 1]@)) { gbfr_spec(prev, named[k - 1]@, builtin, opt) } else { seq![str_key(named[k - 1]@)] + prev },
         }
     }
 }
